@@ -312,6 +312,22 @@ class _KVal(Kind):
     return VObj(e)
 
 
+class _KStrN(Kind):
+  """Native strings (z3/cvc5 theory of strings) -- used only by the contracts of
+  the string-splitting helpers, whose specification IS about characters."""
+  name = 'StrN'
+
+  def sort(self):
+    return z3.StringSort()
+
+  def box(self, w):
+    return w.e
+
+  def unbox(self, e):
+    return VStr(e)
+
+
+KStrN = _KStrN()
 KBool = _KBool()
 KInt = _KInt()
 KStr = _KStr()
@@ -569,15 +585,27 @@ class VInt(W):
 
 
 class VStr(W):
-  kind = KStr
 
   def __init__(self, e):
     self.e = str_lit(e) if isinstance(e, str) else e
 
+  @property
+  def native(self):
+    return self.e.sort() == z3.StringSort()
+
+  @property
+  def kind(self):
+    return KStrN if self.native else KStr
+
   def truthy(self):
+    if self.native:
+      return z3.Length(self.e) > 0
     return self.e != str_lit('')
 
   def concrete(self):
+    if self.native:
+      s = z3.simplify(self.e)
+      return s.as_string() if z3.is_string_value(s) else None
     for s, c in _STR_LITS.items():
       if c.eq(self.e):
         return s
@@ -1010,6 +1038,8 @@ def coerce(w, kind):
   if kind is KInt and isinstance(w, VInt):
     return w
   if kind is KStr and isinstance(w, VStr):
+    return w
+  if kind is KStrN and isinstance(w, VStr):
     return w
   if kind is KStr and isinstance(w, VObj):
     val_axioms()
